@@ -337,7 +337,7 @@ func TestC01(t *testing.T) {
 				}
 			}
 		}
-		kC01.Run(t, ev, perShard(pick(6000, 600000)))
+		kC01.Run(t, ev, perShard(pick(6000, 4000000)))
 		{
 			var need []string
 			for k := 0; k < akCount; k++ {
